@@ -1265,6 +1265,51 @@ def clampConversions (asFound : Bool) (mn v mx : U) : Option Unit :=
   let g := if asFound then comparable mn v && comparable mn mx else compatible mn v && compatible mn mx
   if g then (convert? mn v).bind (fun _ => convert? mx v) else some ()
 
+/-! ## 15b. All modelled scanners under one name -/
+
+inductive Scanner where
+  | wsNoComments
+  | whitespace
+  | loudComment                       -- cursor after the opening `/*`
+  | escape (idStart : Bool)
+  | escapedChar
+  | identifier (norm unit : Bool)
+  | interpIdent
+  | string
+  | interpString
+  | number
+  | urlBase
+  | urlSheet
+  | declValue (allowEmpty : Bool)
+  | interpDeclValue (allowSemi allowEmpty allowColon : Bool)
+  | almostAny
+  deriving DecidableEq, Repr, Inhabited
+
+/-- `None` of the url attempts leaves the cursor where it was. -/
+def UrlRes.toRes (i : Nat) : UrlRes → Res
+  | .url j => .ok j
+  | .notUrl => .ok i
+  | .err e sp => .err e sp
+  | .unsupported => .unsupported
+
+def runScanner (sc : Scanner) (y : Syn) (s : Array Char) (i : Nat) : Res :=
+  match sc with
+  | .wsNoComments => .ok (wsNoComments y.ind s i)
+  | .whitespace => whitespace y s i
+  | .loudComment => loudFor y.ind s i
+  | .escape b => (parseEscape b s i).toRes
+  | .escapedChar => (consumeEscapedChar s i).toRes
+  | .identifier n u => (parseIdentifier n u s i).toRes
+  | .interpIdent => parseIIdent s i
+  | .string => parseString s i
+  | .interpString => parseIString s i
+  | .number => parseNumber s i
+  | .urlBase => (tryUrlBase s i).toRes i
+  | .urlSheet => (tryUrlSheet y.ind s i).toRes i
+  | .declValue ae => declarationValue ae s i
+  | .interpDeclValue a b c => interpolatedDeclarationValue y.ind a b c s i
+  | .almostAny => almostAny y s i
+
 /-! ## 16. Per-input predicates used by the theorems and, through the driver, on grass's output -/
 
 /-- P̂ of the lexer part of C18 on one text: with its newlines written in style `k`, the text
